@@ -3,7 +3,8 @@
 tier="${1:-quick}"; seed="${2:-1}"
 cd "$(dirname "$0")/.." || exit 2
 fail=0
-for id in C01 C02 C03 C04 C05 C06 C07 C08 C09 C10 C11 C12 C13 C14 C15 C16 C17 C18 C19 C20; do
+# VERIF_ORDER: another order, or a subset
+for id in ${VERIF_ORDER:-C01 C02 C03 C04 C05 C06 C07 C08 C09 C10 C11 C12 C13 C14 C15 C16 C17 C18 C19 C20}; do
   out=$(VERIF_SEED=$seed ./check $id $tier 2>&1); rc=$?
   echo "$out" | grep -E "^(VIOLATION|INCONCLUSIVE|---)" | cut -c1-300
   echo "$out" | grep -E "^$id $tier" | sed "s/^/rc=$rc /"
